@@ -40,6 +40,12 @@ type resp struct {
 
 func child() {
 	w1.Serve(func(l []byte) map[string]interface{} {
+		var wrap struct {
+			Rec json.RawMessage `json:"rec"`
+		}
+		if json.Unmarshal(l, &wrap) == nil && wrap.Rec != nil {
+			return childRecords(wrap.Rec)
+		}
 		var r req
 		if err := json.Unmarshal(l, &r); err != nil {
 			return map[string]interface{}{"status": -1, "panic": err.Error()}
@@ -130,6 +136,7 @@ func main() {
 	out := flag.String("out", ".", "output directory")
 	seed := flag.Int64("seed", 1, "seed")
 	n := flag.Int("n", 40, "number of random base scripts")
+	nrec := flag.Int("nrec", 10, "number of generated bases of each kind for the records layer")
 	nb := flag.Int("nb", 24, "number of boundary-corpus scripts used as bases (0 = all)")
 	allBits := flag.Bool("allbits", false, "flip all 8 bits of every position (default: one random bit per position)")
 	isChild := flag.Bool("child", false, "internal: serve decode requests on stdin")
@@ -330,4 +337,5 @@ func main() {
 		wd.Add(w1.DCaseTerm(in.buf, in.start, in.ops, rs.Vals, rs.Status, rs.Off), cf.Sidecar{Case: desc, Kind: "malformed-" + in.kind, Nontrivial: len(in.buf) > 1, Monitor: mon})
 	}
 	wd.Close()
+	runRecordsMalformed(*out, *seed, *nrec, *allBits, ch)
 }
